@@ -416,4 +416,13 @@ class PartialJoin(UnaryOperation):
                         done=False,
                         messages=(f"{current.operation} is count-dependent",),
                     )
+                if current.operation.is_order_dependent:
+                    # A join removes and repeats rows, which changes which
+                    # rows precede or follow each other.
+                    return UnaryCommutator(
+                        first=None,
+                        second=current.operation,
+                        done=False,
+                        messages=(f"{current.operation} is order-dependent",),
+                    )
                 return UnaryCommutator(first=self, second=current.operation)
